@@ -323,6 +323,22 @@ fn run_op(cx: &mut Ctx, spec: OpSpec, body: impl FnOnce(&mut Ctx) -> Out) -> Out
             vio("C06", v);
         }
         if let Out::P(ref cl) = out {
+            if cl == "unwrap" {
+                // Option::unwrap on None inside the crate: nothing documents such a panic
+                let t: Vec<&str> = spec.toks.split(' ').collect();
+                let ie = t.iter().position(|x| *x == "inse");
+                let rp = t.iter().position(|x| *x == "orepk" || *x == "orepe");
+                let d6 = spec.kind == "entry" && matches!((ie, rp), (Some(a), Some(b)) if a < b);
+                let what = if d6 {
+                    format!("class=entry-insert-vacant-then-replace undocumented panic (unwrap on None) in [{}]", spec.toks)
+                } else {
+                    format!("undocumented panic (unwrap on None) in [{}]", spec.toks)
+                };
+                vio("C01", what.clone());
+                if matches!(spec.kind, "entry" | "rawentry" | "rawget") {
+                    vio("C12", what);
+                }
+            }
             if cl.starts_with("other") {
                 cx.abort = true;
                 vio("C01", format!("undocumented panic {} in [{}]", cl, spec.toks));
